@@ -120,6 +120,29 @@ def build_coq():
     return time.time() - t0
 
 
+COQ_ARGS = ["-Q", "Model", "ASModel", "-Q", "Proofs", "ASProofs", "-Q", "Props", "ASProps", "-Q", "gen", "ASGen",
+            "-w", "-notation-overridden,-deprecated"]
+
+
+def build_fact_dependents(files):
+    """gen/RepoFacts.v is regenerated from /repo on every run; the files that depend on it are outside the
+    Makefile (so that a change of the facts cannot break the build of the rest) and are re-checked here, in
+    order, from scratch.  A failure is a broken proof obligation of the calling property only."""
+    import repofacts
+    with BuildLock():
+        repofacts.write()
+        for f in ["gen/RepoFacts.v"] + files:
+            for ext in (".vo", ".vok", ".vos", ".glob"):
+                try:
+                    os.remove(os.path.join(COQ, f[:-2] + ext))
+                except OSError:
+                    pass
+        for f in ["gen/RepoFacts.v"] + files:
+            p = sh(["coqc"] + COQ_ARGS + [f], cwd=COQ, timeout=1200, check=False)
+            if p.returncode != 0:
+                raise CheckError("proof obligation no longer checks against the facts regenerated from /repo: %s\n%s" % (f, p.stdout[-1500:]))
+
+
 def check_props(prop_file):
     """Compile Props/<prop_file>.v on its own, capture Print Assumptions output.
     Returns (theorems, assumptions_report) or raises CheckError."""
